@@ -13,6 +13,7 @@ pub fn all() -> BTreeMap<String, Predicate> {
     m.insert("residue_prone_split_ratio".into(), residue_prone_split_ratio as Predicate);
     m.insert("two_sell_lines_one_day".into(), two_sell_lines_one_day as Predicate);
     m.insert("extreme_magnitude".into(), extreme_magnitude as Predicate);
+    m.insert("capital_return_per_share_exceeds_a_lot_unit_cost".into(), capret_exceeds_lot_unit_cost as Predicate);
     m.insert("two_buy_lots_one_day_after_sale_within_30_days".into(), two_buy_lots_after_sale as Predicate);
     m
 }
@@ -156,4 +157,34 @@ fn extreme_magnitude(i: &Input, _c: &Value) -> bool {
         }
         Input::Json(_) => false,
     }
+}
+
+/// Some CAPRETURN's net amount per share held (R's position at the event) exceeds the unit cost of a BUY line of that
+/// security dated before the event: the return is apportioned over lots by share count, so such a lot's cost goes
+/// negative even though the holding as a whole can absorb the return.
+fn capret_exceeds_lot_unit_cost(i: &Input, _c: &Value) -> bool {
+    let Input::Ledger(txs) = i else { return false };
+    let Ok(rtx) = mcx::refmodel::to_rtx(txs, &mcx::refmodel::no_fx) else { return false };
+    let r = mcx::refmodel::evaluate(&rtx);
+    for e in txs {
+        let Operation::CapReturn { total_value, fees, .. } = &e.operation else { continue };
+        let net = Rat::from_dec(total_value.amount) - Rat::from_dec(fees.amount);
+        let pos = r.pos_start(&e.ticker, e.date);
+        if !pos.is_pos() {
+            continue;
+        }
+        let per_share = &net / &pos;
+        for b in txs.iter().filter(|b| b.ticker == e.ticker && b.date < e.date) {
+            if let Operation::Buy { amount, price, fees } = &b.operation {
+                if amount.is_zero() {
+                    continue;
+                }
+                let unit = Rat::from_dec(price.amount) + Rat::from_dec(fees.amount) / Rat::from_dec(*amount);
+                if unit < per_share {
+                    return true;
+                }
+            }
+        }
+    }
+    false
 }
